@@ -129,7 +129,7 @@ class RowsSuite(Suite):
                 npep = rng.choice([0, 1, 2, 3, 5]) if rng.random() < 0.15 else rng.choice([1, 2, 3, 5])
                 peptides = rng.sample(gens.PEPTIDES, npep)
                 inf = []
-                levels = ["0/1", "1/1024", "1/2048", "1/100", "1/2", "1/1", "3/1024"]
+                levels = [gens.norm(x) for x in ["0/1", "1/1024", "1/2048", "1/100", "1/2", "1/1", "3/1024"]]
                 for e in peptides:
                     prots = [rng.choice(g) for _ in range(rng.choice([1, 1, 2, 3]))]
                     if rng.random() < 0.15:
@@ -145,7 +145,7 @@ class RowsSuite(Suite):
             # unequal list lengths exercise zip truncation
             if rng.random() < 0.05 and qs:
                 qs = qs[:-1]
-            cut = rng.choice([None, None, "0/1", "1/1024", "1/100", "1/2", "1/1"])
+            cut = rng.choice([None, None, "0/1", "1/1024", gens.norm("1/100"), "1/2", "1/1"])
             yield {"groups": groups, "infos": infos, "scores": scores, "qvals": qs, "cut": cut,
                    "keep_all": rng.random() < 0.4}
 
